@@ -446,6 +446,7 @@ func init() {
 			p := flavourProfile(flavour)
 			p.PRestart = 0.06
 			p.PClockJump = 0.08
+			fullSlots := false
 			sc := baseScenario("C09", r, seed, chain, tier, p, func(g *GenCfg, n *NodeCfg) {
 				if r.Intn(4) == 0 {
 					n.ValidatorMode = true
@@ -455,7 +456,17 @@ func init() {
 				if chain == 2 && r.Intn(8) == 0 {
 					g.InitialH = 1
 				}
+				if flavour == 2 && r.Intn(3) == 0 {
+					// a candidate whose 1000 delegation slots are (almost) full: small stakes are kicked to the
+					// waitlist at every recalculation, repeatedly for the same owners
+					fullSlots = true
+					g.ManyDeleg = 994 + r.Intn(6)
+					n.Period = 6
+				}
 			})
+			if fullSlots && len(sc.Blocks) > 30 {
+				sc.Blocks = sc.Blocks[:30]
+			}
 			if flavour == 3 {
 				steerPriceWindow(r, sc, false)
 			}
